@@ -267,6 +267,11 @@ def c13(res, tier, seed, lib):
               "oklab-b", "luminance", "brightness", "ansi-8bit", "ansi-24bit", "cmyk", "name"]
     for t in ftypes:
         cmds.append(["format", t, "red", "rgba(10,20,30,0.5)"])
+    # option values in other letter cases (accepted by the argument parser) are the same commands
+    recased = [["format", t, "red", "rgba(10,20,30,0.5)"] for t in ["ANSI-8BIT", "Ansi-24Bit", "ANSI-24BIT", "HEX", "Lab-A", "NAME"]]
+    recased += [["colorblind", "PROT", "red"], ["set", "HSL-Hue", "120", "red"], ["sort-by", "HUE"] + cols, ["list", "-s", "Hue"],
+                ["mix", "-s", "RGB", "red", "blue"], ["gradient", "-s", "Lch", "-n", "3", "red", "blue"], ["random", "-s", "VIVID", "-n", "2"]]
+    cmds += recased
     exempt = [["colorcheck"], ["format", "ansi-8bit-escapecode", "red"], ["format", "ansi-24bit-escapecode", "red"]]
     off_settings = [([], False, {}), (["-m", "off"], True, {}), ([], True, {"NO_COLOR": "1"}), ([], True, {"PASTEL_COLOR_MODE": "off"})]
     on_settings = [(["-f"], False, {}), (["-m", "8bit"], False, {}), ([], True, {"COLORTERM": "truecolor"}), ([], True, {"PASTEL_COLOR_MODE": "8bit"})]
@@ -275,12 +280,16 @@ def c13(res, tier, seed, lib):
             rc, out, err = run_cli(fl + cmd, env=env, tty=tty, timeout=60)
             inp = "%s tty=%s env=%s" % (fl + cmd, tty, env)
             res.case("off " + inp)
+            if rc == 2 and cmd in recased:
+                continue            # this spelling is not accepted by the argument parser
             res.check(rc == 0, "exit-0", "cli", inp, "rc=%s stderr=%r" % (rc, err[:200]))
             res.check(ESC not in out, "no-escape-with-colour-off", "cli:" + cmd[0], inp, repr(out[:200]))
         for (fl, tty, env) in on_settings:
             rc, out, err = run_cli(fl + cmd, env=env, tty=tty, timeout=60)
             inp = "%s tty=%s env=%s" % (fl + cmd, tty, env)
             res.case("on " + inp)
+            if rc == 2 and cmd in recased:
+                continue
             res.check(rc == 0, "exit-0", "cli", inp, "rc=%s stderr=%r" % (rc, err[:200]))
             check_reset_discipline(res, out, "cli:" + cmd[0], inp)
     for cmd in exempt:
@@ -507,7 +516,13 @@ def c18(res, tier, seed, lib):
     # the code's table) parses, in any letter case, to its CSS value
     css = _re.findall(r'\("([a-z]+)",\s*(\d+),\s*(\d+),\s*(\d+)\)', open(os.path.join(VERIF, "lean/Pastel/Model/Named.lean")).read().split("def cssNamed")[1].split("]")[0])
     res.check(len(css) == 148, "reference-table-has-148-rows", "lean:cssNamed", "cssNamed", "%d rows" % len(css))
-    for variant in (str.lower, str.upper, str.title):
+    def camel(n):
+        return n[:1] + n[1:].upper()
+    def alternate(n):
+        return "".join(ch.upper() if i % 2 else ch for i, ch in enumerate(n))
+    def last_upper(n):
+        return n[:-1] + n[-1:].upper()
+    for variant in (str.lower, str.upper, str.title, camel, alternate, last_upper):
         names = [variant(n) for (n, _, _, _) in css]
         rc, out, err = run_cli(["format", "hex"] + names)
         lines = out.decode().split("\n")[:-1]
@@ -856,6 +871,18 @@ def c19(res, tier, seed, lib):
                     res.check(rc == 1 and cls == want, "picker-failure-is-a-pastel-error", "cli:colorpicker", "%s %r" % (name, cmd), "rc=%s class=%s msg=%r" % (rc, cls, msg))
     finally:
         shutil.rmtree(d, ignore_errors=True)
+    # numerically extreme counts for `pick` (no picker available: must fail cleanly at once)
+    for cnt in ["18446744073709551615", "9223372036854775807", "1152921504606846976", "1000000000000", "400000000000000", "0", "1",
+                "18446744073709551616", "-1", "1e3"]:
+        argv = ["pick", cnt]
+        try:
+            rc, out, err = run_cli(argv, env={"PATH": "/nonexistent"}, timeout=20)
+        except subprocess.TimeoutExpired:
+            res.case("pick " + cnt)
+            res.fail("terminates", "cli:pick", "pick " + cnt, "no exit within 20 s")
+            continue
+        res.case("pick " + cnt)
+        generic_oracle(res, argv + ["<no picker>"], rc, out, err, allow_partial_line=True)
     # every tool of the picker table (read from the source on each run) x reply shapes
     import re as _re
     src = open("/repo/src/cli/colorpicker_tools.rs").read()
